@@ -44,6 +44,9 @@ type round struct {
 	// NextDelayMs: the application calls Next this long after the previous round ended: the group has joined and synced by
 	// then, the generation lives (and heartbeats are due) before anybody asks for it
 	NextDelayMs int `json:"next_delay_ms,omitempty"`
+	// NoFns: the application starts no function at all in this generation (it only calls Next again): the generation
+	// still has to end when its heartbeat fails or the coordinator rebalances
+	NoFns bool `json:"no_fns,omitempty"`
 	// CloseWhileErrorPending: after the generation ended, do not call Next; wait until the
 	// background rejoin has failed (an error waits to be handed to Next), then Close.
 	CloseWhileErrorPending bool      `json:"close_while_error_pending,omitempty"`
@@ -345,12 +348,14 @@ func run(tb ev.TB, c groupCase) (labels []string, nontrivial bool) {
 		}
 		var fns []*liveFn
 		// a sentinel that only waits for the end of the generation (so that the harness always knows when it ended)
-		fns = append(fns, startFn(gen, 99, fnSpec{Kind: "wait"}))
-		for i, spec := range rd.Fns {
-			if spec.LateStart {
-				continue
+		if !rd.NoFns {
+			fns = append(fns, startFn(gen, 99, fnSpec{Kind: "wait"}))
+			for i, spec := range rd.Fns {
+				if spec.LateStart {
+					continue
+				}
+				fns = append(fns, startFn(gen, i, spec))
 			}
-			fns = append(fns, startFn(gen, i, spec))
 		}
 		time.Sleep(time.Duration(rd.WaitMs) * time.Millisecond)
 		// trigger the ending event
@@ -885,6 +890,11 @@ func genCase(t *rapid.T) groupCase {
 			ends = append(ends, "topic-deleted") // only as the last round: nothing can be joined for afterwards
 		}
 		rd.End = rapid.SampledFrom(ends).Draw(t, "end")
+		if c.WatchMs == 0 && i < nr-1 && rapid.IntRange(0, 7).Draw(t, "noFns") == 0 {
+			rd.NoFns = true
+			rd.End = rapid.SampledFrom([]string{"heartbeat-error", "rebalance"}).Draw(t, "noFnsEnd")
+			rd.WaitMs = 5
+		}
 		if rd.End == "heartbeat-error" {
 			rd.Code = rapid.SampledFrom([]int16{22, 25, 27, 16, 15}).Draw(t, "hbCode")
 		}
